@@ -36,6 +36,91 @@ def gen_matrix(rng, m, n, kind):
     return A
 
 
+def fd_inside(view, p, lo, hi, h):
+    """Finite differences of `view` at `p` that never leave the box [lo, hi] (a view with check_limits=True raises outside):
+    central where p[j] +- h are both inside, otherwise the three-point ONE-SIDED formula towards the inside of the range,
+    (3 f(p) - 4 f(p -+ h) + f(p -+ 2h)) / (+-2h).  Both are exact up to rounding for the linear families (linear vector view,
+    quadratic scalar view) and carry an O(h^2) truncation error for the smooth non-linear ones.
+    Returns (Jfd, number of one-sided columns)."""
+    p = np.array(p, dtype=float)
+    f0 = np.atleast_1d(view(p))
+    Jfd = np.zeros((len(f0), len(p)))
+    onesided = 0
+    for j in range(len(p)):
+        if p[j] + h <= hi[j] and p[j] - h >= lo[j]:
+            xp, xm = p.copy(), p.copy()
+            xp[j] += h
+            xm[j] -= h
+            Jfd[:, j] = (np.atleast_1d(view(xp)) - np.atleast_1d(view(xm))) / (xp[j] - xm[j])
+            continue
+        sgn = -1.0 if p[j] + h > hi[j] else 1.0       # towards the inside
+        x1, x2 = p.copy(), p.copy()
+        x1[j] += sgn * h
+        x2[j] += sgn * 2 * h
+        h1, h2 = x1[j] - p[j], x2[j] - p[j]           # the steps actually taken (signed), h2 ~ 2 h1
+        f1, f2 = np.atleast_1d(view(x1)), np.atleast_1d(view(x2))
+        # derivative at p of the parabola through (0, f0), (h1, f1), (h2, f2)
+        Jfd[:, j] = ((f1 - f0) * h2 / h1 - (f2 - f0) * h1 / h2) / (h2 - h1)
+        onesided += 1
+    return Jfd, onesided
+
+
+def viewjac_on_limits(opt, vary, box, scalar, resc, phase, case, lrng, fail, stats):
+    """The Jacobian clause of C16 at the edge of the domain of a view: one knob sits exactly ON its lower / upper limit
+    (native x = limit / weight, rescaled x = rescale_x[0 or 1]) or within a few Jacobian steps of it, the others are inside.
+    The view under test is the one a caller gets by default (check_limits=True: it raises outside the limits), so the
+    reference differences are taken one-sidedly towards the inside (fd_inside).  Returns False after the first failure."""
+    nk = len(vary)
+    view = opt.get_merit_function(return_scalar=scalar, rescale_x=resc, check_limits=True)
+    # the limits in the units of the view, from the knobs themselves (not from the library's own report)
+    lo_n = np.array([float(v.limits[0]) / (v.weight if v.weight is not None else 1.0) for v in vary])
+    hi_n = np.array([float(v.limits[1]) / (v.weight if v.weight is not None else 1.0) for v in vary])
+    st_n = np.array([float(v.step) / (v.weight if v.weight is not None else 1.0) for v in vary])
+    if resc is None:
+        lo, hi, st = lo_n, hi_n, st_n
+    else:
+        lo, hi = np.full(nk, float(resc[0])), np.full(nk, float(resc[1]))
+        st = st_n * (hi - lo) / (hi_n - lo_n)
+    mid = lo + np.array([lrng.choice([0.3, 0.45, 0.6]) for _ in range(nk)]) * (hi - lo)
+    h = 1e-5
+    saved = dict(box)
+    try:
+        for k in range(nk):
+            for end in ("lower", "upper"):
+                # exactly on the limit, and one point a few Jacobian steps inside it
+                for nsteps in (0.0, lrng.choice([0.5, 1.0, 2.0, 5.0])):
+                    p = mid.copy()
+                    p[k] = lo[k] + nsteps * st[k] if end == "lower" else hi[k] - nsteps * st[k]
+                    where = {"knob": k, "end": end, "steps_inside": nsteps, "x": p.tolist(), "x_limits": [lo.tolist(), hi.tolist()]}
+                    try:
+                        Jfd, onesided = fd_inside(view, p, lo, hi, h)
+                    except ValueError:
+                        # limit / weight * weight (or the rescaling of an end of the range) may round to just outside the
+                        # limits, and then the view refuses the point: nothing the property speaks about
+                        stats["viewjac_limit_points_rejected"] = stats.get("viewjac_limit_points_rejected", 0) + 1
+                        continue
+                    try:
+                        J = np.atleast_2d(view.get_jacobian(p))
+                    except Exception as e:
+                        fail("C16", "view-jacobian-raises-on-a-limit", {"scalar": scalar, "rescale": resc, "phase": phase, "exc": type(e).__name__,
+                                                                        "at": where, "case": {q: case.get(q) for q in ("A", "c", "weights", "tweights", "limits", "range", "nonlinear")}})
+                        return False
+                    stats["viewjac_limit_checks"] = stats.get("viewjac_limit_checks", 0) + 1
+                    stats["viewjac_limit_checks_" + end] = stats.get("viewjac_limit_checks_" + end, 0) + 1
+                    if nsteps == 0.0:
+                        stats["viewjac_limit_checks_exactly_on"] = stats.get("viewjac_limit_checks_exactly_on", 0) + 1
+                    stats["viewjac_limit_onesided_columns"] = stats.get("viewjac_limit_onesided_columns", 0) + onesided
+                    tol = 1e-3 * max(1.0, float(np.max(np.abs(Jfd))))
+                    if J.shape != Jfd.shape or not np.allclose(J, Jfd, rtol=1e-3, atol=tol):
+                        fail("C16", "view-jacobian-on-a-limit-differs-from-one-sided-differences",
+                             {"scalar": scalar, "rescale": resc, "phase": phase, "at": where, "J": J.tolist(), "fd": Jfd.tolist(), "fd_step": h,
+                              "case": {q: case.get(q) for q in ("A", "c", "weights", "tweights", "limits", "range", "nonlinear")}})
+                        return False
+    finally:
+        box.update(saved)        # the interior checks of the other phases start from the knob values they had
+    return True
+
+
 def run_case(case, fail, stats):
     kind = case["kind"]
     if kind == "lstsq":
@@ -235,9 +320,14 @@ def run_case(case, fail, stats):
         tars = [act.target(i, 0.0, tol=1e-9, weight=case["tweights"][i]) for i in range(A.shape[0])]
         opt = xd.Optimize(vary=vary, targets=tars, show_call_counter=False)
         stats["viewjac_cases"] += 1
+        # choices of the on-limit checks: a generator of their own, derived from the case (replays reproduce them and the
+        # stream of generated cases stays what it was)
+        lrng = random.Random(json.dumps([case["A"], case["c"], case["weights"], case["limits"], case["range"]]))
         for scalar in (False, True):
             for resc in (None, tuple(case["range"])):
                 view = opt.get_merit_function(return_scalar=scalar, rescale_x=resc, check_limits=False)
+                # in which of the four phases below this view is also examined on the limits of its knobs
+                lim_phase = lrng.choice(("built", "limits-changed", "weight-changed", "restored"))
                 # the same view object three times: as built, after the limits of a knob changed, after a weight changed
                 # (the view reads limits and weights on every call, so its Jacobian has to follow them as well)
                 lim0, w0 = np.array(vary[0].limits, dtype=float), vary[-1].weight
@@ -272,6 +362,8 @@ def run_case(case, fail, stats):
                         fail("C16", "view-jacobian-differs-from-finite-differences",
                              {"scalar": scalar, "rescale": resc, "phase": phase, "J": J.tolist(), "fd": Jfd.tolist(),
                               "case": {k: case[k] for k in ("A", "weights", "limits", "range")}})
+                    if phase == lim_phase:
+                        viewjac_on_limits(opt, vary, box, scalar, resc, phase, case, lrng, fail, stats)
     else:
         raise ValueError(kind)
 
